@@ -21,7 +21,7 @@ class SpecMixin(object):
         'pubev', 'ev_w', 'ev_topic', 'ev_pid', 'ev_code', 'at', 'truthy', 'val', 'vnone',
         'prefix_of', 'suffix_of', 'contains', 'index_of', 'str_to_int', 'iff', 'distinct_keys',
         'null', 'isnull', 'in_re', 'last', 'card', 'real', 'tag_eq', 'obj_of', 'same_ghost',
-        'str_of_int', 'length', 'ref_id', 'distinct',
+        'str_of_int', 'length', 'ref_id', 'distinct', 'sig_mode',
     ])
 
     # ------------------------------------------------------------------ entry points
@@ -465,8 +465,16 @@ class SpecMixin(object):
         return SV(BOOL, zand([t(z) == t(w) for t in tests]))
 
     def spec_sigev(self, e, st):
-        p, n, t = self._args(e, st)
-        return SV(SIGEV, SigEv.mk_sig(p.z, n.z, self.coerce(t, REAL).z))
+        a = self._args(e, st)
+        p, n, t = a[:3]
+        mode = a[3].z if len(a) > 3 else z3.IntVal(0)
+        if n.ty == VAL:
+            n = SV(INT, Val.vi(n.z))
+        return SV(SIGEV, SigEv.mk_sig(p.z, self.coerce(n, INT).z, self.coerce(t, REAL).z, mode))
+
+    def spec_sig_mode(self, e, st):
+        (a,) = self._args(e, st)
+        return SV(INT, SigEv.sg_mode(a.z))
 
     def spec_sig_pid(self, e, st):
         (a,) = self._args(e, st)
@@ -664,9 +672,8 @@ class SpecMixin(object):
             for text in self.spec.axioms[g]:
                 self.global_axioms.append(self.spb(text, es))
 
-    def call_contract(self, st, c, args, kw, node, recv=None, star=None):
-        self.used_contracts.add(c.qual)
-        self.use_axioms(c)
+    def bind_call(self, st, c, args, kw, node, recv=None, star=None):
+        """bind and coerce the arguments of a call by contract -> (st, env) or (list of Res, None)"""
         names, defaults, vararg, kwarg, fi = self.signature(c)
         args = list(args)
         kw = dict(kw)
@@ -678,17 +685,17 @@ class SpecMixin(object):
             else:
                 extra_pos.append(a)
         if extra_pos and vararg is None and not c.trusted:
-            return self.raise_(st, 'TypeError', node)
+            return self.raise_(st, 'TypeError', node), None
         extra_kw = {}
         for k, v in kw.items():
             if k in names:
                 if k in bound:
-                    return self.raise_(st, 'TypeError', node)
+                    return self.raise_(st, 'TypeError', node), None
                 bound[k] = v
             else:
                 extra_kw[k] = v
         if extra_kw and kwarg is None and fi is not None:
-            return self.raise_(st, 'TypeError', node)
+            return self.raise_(st, 'TypeError', node), None
         has_splat = bool(star and (star['args'] or star['kwargs']))
         for n in names:
             if n in bound:
@@ -711,7 +718,7 @@ class SpecMixin(object):
             elif has_splat:
                 bound[n] = fresh(self.param_type(c, n, fi), 'splat_' + n)
             else:
-                return self.raise_(st, 'TypeError', node)
+                return self.raise_(st, 'TypeError', node), None
         if vararg is not None:
             bound[vararg] = self.mk_tuple(extra_pos)
         if kwarg is not None:
@@ -744,6 +751,19 @@ class SpecMixin(object):
                 else:
                     cv = self.coerce_store(st, v, ty, 'arg %s of %s' % (n, c.qual), node)
             env[n] = cv
+        return st, env
+
+    def call_contract(self, st, c, args, kw, node, recv=None, star=None):
+        self.used_contracts.add(c.qual)
+        self.use_axioms(c)
+        if c.kind == 'coroutine' and not self._awaiting:
+            from . import rely as _rely
+            return self.ok(st, _rely.make_pending_call(self, st, c, args, kw, node, recv, star))
+        self._awaiting = False
+        st, env = self.bind_call(st, c, args, kw, node, recv, star)
+        if env is None:
+            return st
+        names, defaults, vararg, kwarg, fi = self.signature(c)
         pre = st.copy()
         pre.env = env
         pre.old = None
